@@ -1,6 +1,17 @@
 #!/bin/sh
-# usage: tools/seedtest.sh <id> <tier> <patch>  — apply a seeded change to /repo, run the check, undo
-id=$1; tier=$2; patch=$3
-git -C /repo apply $patch || git -C /repo apply --3way $patch || { echo "PATCH DOES NOT APPLY: $patch"; git -C /repo checkout -- .; exit 2; }
-(cd /verif && ./check $id $tier 2>&1 | grep -E "SUMMARY|VIOLATION|ENGINE|KNOWN" | cut -c1-300 | head -${MUT_LINES:-3})
-git -C /repo checkout -- . ; git -C /repo status --short | grep -v '^??' | head
+# usage: tools/seedtest.sh <id> <tier> <patch> [base-commit]
+# Runs a check against a seeded change without touching /repo: a scratch worktree of /repo's
+# HEAD (or of base-commit) gets the patch, the check is pointed at it with VERIF_REPO, and the
+# worktree is removed afterwards.
+id=$1; tier=$2; patch=$3; base=${4:-HEAD}
+wt=/tmp/seedwt-$$
+git -C /repo worktree add -q --detach $wt $base || exit 2
+if ! git -C $wt apply $patch 2>/dev/null; then
+  if ! git -C $wt apply --3way $patch >/dev/null 2>&1; then
+    echo "PATCH DOES NOT APPLY to $base: $patch"; git -C /repo worktree remove --force $wt; exit 2
+  fi
+  echo "(applied with 3-way merge)"
+fi
+(cd /verif && VERIF_REPO=$wt VERIF_EVIDENCE_DIR=/tmp/seed-evidence-$$ ./check $id $tier 2>&1 | grep -E "SUMMARY|VIOLATION|ENGINE|KNOWN" | cut -c1-300 | head -${MUT_LINES:-3})
+git -C /repo worktree remove --force $wt
+rm -rf /tmp/seed-evidence-$$
